@@ -135,7 +135,7 @@ CHECKS["C15"] = dict(
           "CBOR item / a truncated message: handler calls == k, right handler, authenticated remote peer, faithful content; malformed tails are reported and reset. "
           "distinct = (pattern length, attempts, mode, calls, outcome) resp. (k, tail kind, errors, reset)."),
     parts=[
-        dict(test="TestC15Send", quick=320, thorough=30000, per_shard=32),
+        dict(test="TestC15Send", quick=320, thorough=30000, per_shard=32, max_shards=10),
         dict(test="TestC15Inbound", quick=96, thorough=6000, per_shard=10),
         dict(test="TestC15Reuse", quick=8, thorough=160, per_shard=2),
     ],
@@ -340,7 +340,7 @@ CHECKS["C01"] = dict(
           "quiescence, IF the initiator is Completed and the responder had accepted: responder Completed and applied its own completion, every selected block in the receiver's "
           "store byte-identical, Received(receiver) == Queued(sender) == unique payload size. Cases where the initiator does not complete are counted as trivial. "
           "distinct = (direction, scenario, store config, final statuses, cuts, size class)."),
-    parts=[dict(test="TestC01E2E", quick=60, thorough=3000, per_shard=4, watchdog=180),
+    parts=[dict(test="TestC01E2E", quick=60, thorough=3000, per_shard=4, watchdog=180, max_shards=10),
            dict(test="TestC01Late", quick=48, thorough=2400, per_shard=12)],
     floors=dict(any={"TestC01E2E.initiator_completed": 36, "TestC01E2E.limit_raises": 5, "TestC01E2E.finalization_rounds": 5, "TestC01E2E.completed_through_restart": 2,
                      "TestC01E2E.blocks": 300, "TestC01E2E.restarts_before_first_block": 4, "TestC01Late.initiator_completed": 24, "TestC01Late.late_update_during_complete_send": 6, "TestC01Late.two_round_finalizations": 12}),
